@@ -354,3 +354,274 @@ Proof.
       eexists _, _. split; [reflexivity|]. split; [exact Hv|]. split; [exact Hg|reflexivity].
     + pose proof (remove_ne_spec _ _ _ _ _ Er) as [Hf _]. discriminate.
 Qed.
+
+(** ---- the abstraction [to_map] ---- *)
+Definition assoc_mem (m : list (list comp * Z)) (n : list comp) : bool :=
+  existsb (fun e => name_eqb (fst e) n) m.
+Lemma assoc_get_nomem m n : assoc_mem m n = false -> assoc_get m n = -1.
+Proof.
+  induction m as [|[k v] m IH]; cbn; [reflexivity|]. intros H. apply orb_false_iff in H as [H1 H2].
+  rewrite H1. apply IH. exact H2.
+Qed.
+Lemma assoc_get_app m1 m2 n :
+  assoc_get (m1 ++ m2) n = if assoc_mem m1 n then assoc_get m1 n else assoc_get m2 n.
+Proof.
+  induction m1 as [|[k v] m1 IH]; cbn; [reflexivity|]. destruct (name_eqb k n); cbn; [reflexivity|apply IH].
+Qed.
+Definition pre (c : comp) (e : list comp * Z) : list comp * Z := (c :: fst e, snd e).
+Lemma assoc_mem_pre c m d n : assoc_mem (map (pre c) m) (d :: n) = str_eqb c d && assoc_mem m n.
+Proof.
+  unfold assoc_mem. induction m as [|[k v] m IH]; [cbn; rewrite andb_false_r; reflexivity|].
+  cbn [map existsb pre fst]. rewrite IH, name_eqb_cons. destruct (str_eqb c d); reflexivity.
+Qed.
+Lemma assoc_get_pre c m n : assoc_get (map (pre c) m) (c :: n) = assoc_get m n.
+Proof.
+  induction m as [|[k v] m IH]; cbn; [reflexivity|]. rewrite str_eqb_refl. cbn. destruct (name_eqb k n); [reflexivity|apply IH].
+Qed.
+
+Fixpoint go_map (ch : list (comp * trie)) : list (list comp * Z) :=
+  match ch with
+  | [] => []
+  | (c, s) :: r => map (pre c) (to_map s) ++ go_map r
+  end.
+Lemma to_map_unfold v ch : to_map (Node v ch) = (if 0 <=? v then [([], v)] else []) ++ go_map ch.
+Proof.
+  cbn [to_map]. f_equal. all: induction ch as [|[c s] r IH]; [reflexivity|]; cbn [go_map]; rewrite <- IH; reflexivity.
+Qed.
+
+Lemma go_map_nil_key ch : assoc_mem (go_map ch) [] = false.
+Proof.
+  induction ch as [|[c s] r IH]; [reflexivity|]. cbn [go_map]. unfold assoc_mem in *. rewrite existsb_app, IH, orb_false_r.
+  induction (to_map s) as [|[k v] m IHm]; [reflexivity|]. cbn. exact IHm.
+Qed.
+Lemma go_map_absent ch c n : lookup ch c = None -> assoc_mem (go_map ch) (c :: n) = false.
+Proof.
+  induction ch as [|[k s] r IH]; [reflexivity|]. cbn [lookup go_map].
+  destruct (str_eqb k c) eqn:E; [discriminate|]. intros H. unfold assoc_mem in *. rewrite existsb_app, (IH H), orb_false_r.
+  fold (assoc_mem (map (pre k) (to_map s)) (c :: n)). rewrite assoc_mem_pre, E. reflexivity.
+Qed.
+
+Lemma lookup_none_notin ch c : ~ In c (map fst ch) -> lookup ch c = None.
+Proof.
+  induction ch as [|[k s] r IH]; [reflexivity|]. cbn. intros H.
+  destruct (str_eqb k c) eqn:E; [apply str_eqb_eq in E; subst; tauto|]. apply IH. tauto.
+Qed.
+
+Lemma go_map_get ch c n : NoDup (map fst ch) ->
+  assoc_get (go_map ch) (c :: n) = match lookup ch c with Some s => assoc_get (to_map s) n | None => -1 end.
+Proof.
+  induction ch as [|[k s] r IH]; [reflexivity|]. cbn [map fst]. intros Hnd. inversion Hnd as [|? ? Hk Hr]; subst.
+  cbn [go_map lookup]. rewrite assoc_get_app, assoc_mem_pre.
+  destruct (str_eqb k c) eqn:E.
+  - apply str_eqb_eq in E. subst k. cbn [andb]. destruct (assoc_mem (to_map s) n) eqn:Em.
+    + apply assoc_get_pre.
+    + rewrite (assoc_get_nomem _ _ Em). apply assoc_get_nomem, go_map_absent, lookup_none_notin. exact Hk.
+  - cbn [andb]. apply IH. exact Hr.
+Qed.
+
+(** the association list and the trie agree on every name *)
+Lemma to_map_gval n : forall t, wf t -> assoc_get (to_map t) n = gval t n.
+Proof.
+  induction n as [|c n IH]; intros t Hwf; inversion Hwf as [v ch Hv Hnd Hch]; subst; rewrite to_map_unfold, assoc_get_app.
+  - cbn [gval tval]. unfold norm. destruct (0 <=? v); cbn; [reflexivity|].
+    apply assoc_get_nomem, go_map_nil_key.
+  - replace (assoc_mem (if 0 <=? v then [([], v)] else []) (c :: n)) with false by (destruct (0 <=? v); reflexivity).
+    rewrite go_map_get by exact Hnd. cbn [gval tch].
+    destruct (lookup ch c) as [s|] eqn:El; [|reflexivity]. apply IH.
+    assert (Hin : exists k, In (k, s) ch).
+    { clear -El. induction ch as [|[k s0] r IHr]; [discriminate|]. cbn in El.
+      destruct (str_eqb k c); [injection El as ->; exists k; left; reflexivity|].
+      destruct (IHr El) as [k' Hk']. exists k'. right. exact Hk'. }
+    destruct Hin as [k Hk]. eapply Hch. exact Hk.
+Qed.
+
+(** ---- well-formedness is preserved ---- *)
+Lemma upd_keys ch c x : map fst (upd ch c x) = if existsb (fun k => str_eqb k c) (map fst ch) then map fst ch else map fst ch ++ [c].
+Proof.
+  induction ch as [|[k s] r IH]; [reflexivity|]. cbn. destruct (str_eqb k c) eqn:E; cbn; [reflexivity|].
+  rewrite IH. destruct (existsb (fun k0 : str => str_eqb k0 c) (map fst r)); reflexivity.
+Qed.
+Lemma upd_NoDup ch c x : NoDup (map fst ch) -> NoDup (map fst (upd ch c x)).
+Proof.
+  intros H. rewrite upd_keys. destruct (existsb (fun k : str => str_eqb k c) (map fst ch)) eqn:E; [exact H|].
+  assert (Hn : ~ In c (map fst ch)).
+  { intros Hin. assert (existsb (fun k : str => str_eqb k c) (map fst ch) = true); [|congruence].
+    apply existsb_exists. exists c. split; [exact Hin|apply str_eqb_refl]. }
+  clear E. induction (map fst ch) as [|a l IH]; cbn.
+  - constructor; [tauto|constructor].
+  - inversion H; subst. constructor.
+    + rewrite in_app_iff. cbn. cbn in Hn. intuition congruence.
+    + apply IH; [assumption|]. cbn in Hn. tauto.
+Qed.
+Lemma upd_In ch c x k s : In (k, s) (upd ch c x) -> In (k, s) ch \/ s = x.
+Proof.
+  induction ch as [|[k0 s0] r IH]; cbn.
+  - intros [[= <- <-]|[]]. right. reflexivity.
+  - destruct (str_eqb k0 c); cbn; intros [[= <- <-]|H]; auto. destruct (IH H); auto.
+Qed.
+Lemma del_keys_incl ch c : forall k, In k (map fst (del ch c)) -> In k (map fst ch).
+Proof.
+  induction ch as [|[k0 s0] r IH]; cbn; [tauto|]. intros k. destruct (str_eqb k0 c); cbn; intros H; [right; apply IH; exact H|].
+  destruct H; [left; exact H|right; apply IH; exact H].
+Qed.
+Lemma del_NoDup ch c : NoDup (map fst ch) -> NoDup (map fst (del ch c)).
+Proof.
+  induction ch as [|[k0 s0] r IH]; cbn; [auto|]. intros H. inversion H; subst.
+  destruct (str_eqb k0 c); cbn; [apply IH; assumption|]. constructor; [|apply IH; assumption].
+  intros Hin. apply del_keys_incl in Hin. contradiction.
+Qed.
+Lemma del_In ch c k s : In (k, s) (del ch c) -> In (k, s) ch.
+Proof.
+  induction ch as [|[k0 s0] r IH]; cbn; [tauto|]. destruct (str_eqb k0 c); cbn; intros H; [right; apply IH; exact H|].
+  destruct H; [left; exact H|right; apply IH; exact H].
+Qed.
+Lemma lookup_In ch c s : lookup ch c = Some s -> exists k, In (k, s) ch.
+Proof.
+  induction ch as [|[k s0] r IHr]; [discriminate|]. cbn. 
+  destruct (str_eqb k c); [intros [= ->]; exists k; left; reflexivity|].
+  intros H. destruct (IHr H) as [k' Hk']. exists k'. right. exact Hk'.
+Qed.
+
+Lemma wf_empty : wf empty_trie.
+Proof. constructor; [lia|constructor|intros ? ? []]. Qed.
+
+Lemma wf_set n : forall t v, wf t -> -1 <= v -> wf (set t n v).
+Proof.
+  induction n as [|c n IH]; intros t v Hwf Hv; inversion Hwf as [v0 ch Hv0 Hnd Hch]; subst; cbn [set tch tval].
+  - constructor; assumption.
+  - constructor; [assumption|apply upd_NoDup; assumption|].
+    intros k s Hin. apply upd_In in Hin as [Hin| ->]; [eapply Hch; exact Hin|].
+    apply IH; [|assumption]. destruct (lookup ch c) as [s0|] eqn:El; [|apply wf_empty].
+    apply lookup_In in El as [k' Hk']. eapply Hch. exact Hk'.
+Qed.
+
+Lemma wf_remove_ne n : forall t first c t', wf t -> remove_ne t first c n = Ok (Some t') -> wf t'.
+Proof.
+  induction n as [|c' n IH]; intros t first c t' Hwf; inversion Hwf as [v0 ch Hv0 Hnd Hch]; subst; cbn [remove_ne tch tval];
+    destruct (lookup ch c) as [s|] eqn:El; try discriminate.
+  - assert (Hs : wf s) by (apply lookup_In in El as [k Hk]; eapply Hch; exact Hk).
+    destruct (tch s) eqn:Es.
+    + destruct (captures (Node v0 ch) first); intros [= <-].
+      constructor; [assumption|apply del_NoDup; assumption|]. intros k x Hin. apply del_In in Hin. eapply Hch; exact Hin.
+    + intros [= <-]. constructor; [assumption|apply upd_NoDup; assumption|].
+      intros k x Hin. apply upd_In in Hin as [Hin| ->]; [eapply Hch; exact Hin|].
+      inversion Hs; subst. cbn [tch] in *. rewrite <- Es. constructor; [lia|assumption|assumption].
+  - assert (Hs : wf s) by (apply lookup_In in El as [k Hk]; eapply Hch; exact Hk).
+    destruct (remove_ne s false c' n) as [[s'|]|e|] eqn:Er; try discriminate.
+    + intros [= <-]. constructor; [assumption|apply upd_NoDup; assumption|].
+      intros k x Hin. apply upd_In in Hin as [Hin| ->]; [eapply Hch; exact Hin|]. eapply IH; eauto.
+    + destruct (captures (Node v0 ch) first); intros [= <-].
+      constructor; [assumption|apply del_NoDup; assumption|]. intros k x Hin. apply del_In in Hin. eapply Hch; exact Hin.
+Qed.
+
+Lemma wf_remove t n t' b : wf t -> remove t n = Ok (t', b) -> wf t'.
+Proof.
+  intros Hwf. destruct n as [|c n]; cbn [remove].
+  - intros [= <- _]. inversion Hwf; subst. cbn [tch]. constructor; [lia|assumption|assumption].
+  - destruct (remove_ne t true c n) as [[t0|]|e|] eqn:Er; try discriminate. intros [= <- _].
+    eapply wf_remove_ne; eauto.
+Qed.
+
+(** tries reachable from the empty one by Set (values >= 0) and successful Remove *)
+Inductive reach : trie -> Prop :=
+| reach_empty : reach empty_trie
+| reach_set t n v : reach t -> 0 <= v -> reach (set t n v)
+| reach_remove t n t' b : reach t -> remove t n = Ok (t', b) -> reach t'.
+
+Lemma reach_wf t : reach t -> wf t.
+Proof.
+  induction 1; [apply wf_empty|apply wf_set; [assumption|lia]|eapply wf_remove; eauto].
+Qed.
+Lemma wf_tval t : wf t -> -1 <= tval t.
+Proof. inversion 1; assumption. Qed.
+
+(** ---- statements against the abstraction ---- *)
+Lemma lpv_f_ext f g n : (forall p, f p = g p) -> lpv_f f n = lpv_f g n.
+Proof.
+  intros H. unfold lpv_f. rewrite (filter_ext _ (fun p => 0 <=? g p)) by (intros; rewrite H; reflexivity).
+  destruct (filter _ _); [reflexivity|apply H].
+Qed.
+Lemma hasp_f_ext f g n : (forall p, f p = g p) -> hasp_f f n = hasp_f g n.
+Proof.
+  intros H. unfold hasp_f. induction (prefixes n) as [|p l IH]; [reflexivity|]. cbn. rewrite H, IH. reflexivity.
+Qed.
+
+Lemma assoc_get_filter_ne m n k : name_eqb n k = false ->
+  assoc_get (filter (fun e => negb (name_eqb (fst e) n)) m) k = assoc_get m k.
+Proof.
+  intros Hne. induction m as [|[a v] m IH]; [reflexivity|]. cbn [filter fst].
+  destruct (name_eqb a n) eqn:E; cbn [negb].
+  - apply name_eqb_eq in E. subst a. cbn [assoc_get]. rewrite Hne. exact IH.
+  - cbn [assoc_get]. rewrite IH. reflexivity.
+Qed.
+Lemma assoc_get_filter_eq m n :
+  assoc_get (filter (fun e => negb (name_eqb (fst e) n)) m) n = -1.
+Proof.
+  induction m as [|[a v] m IH]; [reflexivity|]. cbn [filter fst].
+  destruct (name_eqb a n) eqn:E; cbn [negb]; [exact IH|]. cbn [assoc_get]. rewrite E. exact IH.
+Qed.
+Lemma assoc_get_set m n v k : assoc_get (assoc_set m n v) k = if name_eqb n k then v else assoc_get m k.
+Proof.
+  unfold assoc_set. cbn [assoc_get]. destruct (name_eqb n k) eqn:E; [reflexivity|]. apply assoc_get_filter_ne. exact E.
+Qed.
+Lemma assoc_get_remove m n k : assoc_get (assoc_remove m n) k = if name_eqb n k then -1 else assoc_get m k.
+Proof.
+  unfold assoc_remove. destruct (name_eqb n k) eqn:E.
+  - apply name_eqb_eq in E. subst k. apply assoc_get_filter_eq.
+  - apply assoc_get_filter_ne. exact E.
+Qed.
+
+Lemma get_exact_to_map t n : reach t -> get_exact t n = assoc_get (to_map t) n.
+Proof.
+  intros H. apply reach_wf in H. rewrite to_map_gval by exact H. apply get_exact_gval_wf, wf_tval, H.
+Qed.
+Lemma glp_to_map t n : reach t -> get_longest_prefix t n = longest_prefix_value (to_map t) n.
+Proof.
+  intros H. apply reach_wf in H. rewrite glp_gval by (apply wf_tval, H).
+  unfold longest_prefix_value. apply lpv_f_ext. intros p. symmetry. apply to_map_gval, H.
+Qed.
+Lemma contains_prefix_to_map t n : reach t -> contains_prefix t n = has_prefix (to_map t) n.
+Proof.
+  intros H. apply reach_wf in H. rewrite contains_prefix_gval.
+  unfold has_prefix. apply hasp_f_ext. intros p. symmetry. apply to_map_gval, H.
+Qed.
+Lemma contains_exact_to_map t n : reach t -> contains_exact t n = (0 <=? assoc_get (to_map t) n).
+Proof. intros H. unfold contains_exact. rewrite get_exact_to_map by exact H. reflexivity. Qed.
+
+Lemma set_to_map t n v : reach t -> 0 <= v ->
+  forall m, assoc_get (to_map (set t n v)) m = assoc_get (assoc_set (to_map t) n v) m.
+Proof.
+  intros H Hv m. assert (Hr : reach (set t n v)) by (constructor; assumption).
+  rewrite (to_map_gval m _ (reach_wf _ Hr)), gval_set, assoc_get_set, (to_map_gval m _ (reach_wf _ H)), norm_nonneg by exact Hv.
+  reflexivity.
+Qed.
+
+Lemma is_empty_root_gval t : is_empty_root t = true -> forall m, gval t m = -1.
+Proof.
+  unfold is_empty_root. intros H. apply andb_true_iff in H as [Hv Hc]. apply Z.ltb_lt in Hv.
+  intros [|c m]; cbn.
+  - unfold norm. destruct (0 <=? tval t) eqn:E; [apply Z.leb_le in E; lia|reflexivity].
+  - destruct (tch t); [reflexivity|discriminate].
+Qed.
+
+(** Remove of a registered name: succeeds (no nil dereference), deletes
+    exactly that name; a [true] result means the trie is empty. *)
+Lemma remove_to_map t n : reach t -> 0 <= assoc_get (to_map t) n ->
+  exists t' b, remove t n = Ok (t', b) /\
+    (forall m, assoc_get (to_map t') m = assoc_get (assoc_remove (to_map t) n) m) /\
+    (b = true -> forall m, assoc_get (to_map t') m = -1).
+Proof.
+  intros H Hreg. rewrite (to_map_gval n _ (reach_wf _ H)) in Hreg.
+  destruct (remove_gval t n (or_intror Hreg)) as [t' [b [Hr [_ [Hg Hb]]]]].
+  exists t', b. split; [exact Hr|].
+  assert (Hr' : reach t') by (econstructor; eauto).
+  split.
+  - intros m. rewrite (to_map_gval m _ (reach_wf _ Hr')), Hg, assoc_get_remove, (to_map_gval m _ (reach_wf _ H)). reflexivity.
+  - intros -> m. rewrite (to_map_gval m _ (reach_wf _ Hr')). apply is_empty_root_gval. symmetry. exact Hb.
+Qed.
+
+Lemma lpv_assoc_longest (m : list (list comp * Z)) n :
+  (exists p, is_prefix p n = true /\ 0 <= assoc_get m p /\ longest_prefix_value m n = assoc_get m p /\
+             forall q, is_prefix q n = true -> 0 <= assoc_get m q -> (length q <= length p)%nat)
+  \/ (longest_prefix_value m n = -1 /\ forall q, is_prefix q n = true -> assoc_get m q < 0).
+Proof. apply lpv_f_spec. Qed.
